@@ -256,7 +256,11 @@ def run(ck, sq, Event, histories, replay_obj, quick):
     """histories: (name, lazy, concrete steps) - what the main stream of the C06 check
     executed (its random histories are generators drawing from ck.rng; here they are re-run
     from the concrete steps, so both streams see the same calls)."""
-    ck.prove(props_file="Props/C06State.v", extra_targets=["Bridge/BridgeCrashStore.v", "Model/CrashStoreDriver.v"])
+    # the model and its theorems first (so that the stream runs even when a bridge below is broken)
+    common.coq_make(["Props/C06State.vo", "Model/CrashStoreDriver.vo"], ck.log)
+    ck.prove(props_file="Props/C06State.v",
+             extra_targets=["Bridge/BridgeCrashStore.v", "Bridge/BridgeCrashStoreLive.v", "Model/CrashStoreDriver.v"],
+             gen_kernels=["SqliteStorage"])        # translate/k_sqlstore.py: statements and parameters of every method
     ok2, out = common.build_driver("C06State", ck.log, "ExC06State")
     if not ok2:
         ck.broken.append("state model no longer extracts/compiles: " + out[-300:])
